@@ -245,6 +245,25 @@ def evaluate(X, name, v, spec_octets=None, spec_tags=None):
             except Exception as e:
                 fail("reuse", e)
         LAST_PDU[name] = obj
+    # the value carried in an Any: cast_in gives the value's own encoding, cast_out gives the value back -- and reading it
+    # leaves the Any as it was (it re-encodes identically and can be read again)
+    if tl is not None and not is_pdu(klass):
+        try:
+            s = X.schemas[name]
+            a = cd.Any()
+            a.cast_in(obj)
+            tin = [abs_tag(t) for t in a.tagList.tagList]
+
+            def read():
+                o = a.cast_out(klass)
+                if s["k"] in ("seq", "choice"):
+                    return project_named(X, name, o)
+                return ["l", [project(X, s["of"], x) for x in o]]
+            v1 = read()
+            after = [abs_tag(t) for t in a.tagList.tagList]
+            r["any"] = {"ok": True, "in": tin, "v1": v1, "after": after, "v2": read()}
+        except Exception as e:
+            fail("any", e)
     # decode
     src_octets = spec_octets if spec_octets is not None else octets
     src_tags = spec_tags if spec_tags is not None else (r["enc"]["tags"] if tl is not None else None)
@@ -331,6 +350,16 @@ def failure(r, exp_tags=None, exp_octets=None):
         return ("OctetsEqualSpec", "octets", "differs")
     if "reuse" in r and (not r["reuse"]["ok"] or r["reuse"]["o"] != r["oct"]["o"]):
         return ("OctetsEqualSpec", "reuse", "a re-used PDU object encodes differently from a fresh one with the same parameters")
+    if "any" in r:
+        y = r["any"]
+        if not y["ok"]:
+            return ("RoundTrip", "any", y["exc"])
+        if y["in"] != r["enc"]["tags"]:
+            return ("RoundTrip", "any", "Any.cast_in(value) does not hold the value's encoding")
+        if y["v1"] != r["v"]:
+            return ("RoundTrip", "any", "Any.cast_out gives back another value")
+        if y["after"] != y["in"] or y["v2"] != r["v"]:
+            return ("RoundTrip", "any", "reading the Any (cast_out) changed it")
     if not r["dec"]["ok"]:
         return ("RoundTrip", "dec", r["dec"]["exc"])
     if r["dec"]["v"] != r["v"]:
